@@ -2,7 +2,7 @@ use std::{any::Any, cell::RefCell, collections::HashMap, rc::Rc};
 
 use tulisp_proc_macros::crate_fn;
 
-use crate::{Error, TulispContext, TulispObject};
+use crate::{Error, ErrorKind, TulispContext, TulispObject};
 
 struct TulispObjectEql(TulispObject);
 
@@ -40,9 +40,14 @@ pub(crate) fn add(ctx: &mut TulispContext) {
     #[crate_fn(add_func = "ctx", name = "gethash")]
     fn gethash(key: TulispObject, table: TulispObject) -> Result<TulispObject, Error> {
         let binding = table.as_any()?;
-        let table = binding
-            .downcast_ref::<RefCell<HashMap<TulispObjectEql, TulispObject>>>()
-            .unwrap();
+        let Some(table) =
+            binding.downcast_ref::<RefCell<HashMap<TulispObjectEql, TulispObject>>>()
+        else {
+            return Err(Error::new(
+                ErrorKind::TypeMismatch,
+                "Expected a hash table".to_string(),
+            ));
+        };
         let value = table
             .borrow_mut()
             .get(&key.into())
@@ -59,9 +64,14 @@ pub(crate) fn add(ctx: &mut TulispContext) {
         table: TulispObject,
     ) -> Result<TulispObject, Error> {
         let binding = table.as_any()?;
-        let table = binding
-            .downcast_ref::<RefCell<HashMap<TulispObjectEql, TulispObject>>>()
-            .unwrap();
+        let Some(table) =
+            binding.downcast_ref::<RefCell<HashMap<TulispObjectEql, TulispObject>>>()
+        else {
+            return Err(Error::new(
+                ErrorKind::TypeMismatch,
+                "Expected a hash table".to_string(),
+            ));
+        };
         table.borrow_mut().insert(key.into(), value);
 
         Ok(TulispObject::nil())
